@@ -1054,7 +1054,7 @@ func c13Explore(c *Ctx, env *c13Env, sc c13Scenario) {
 		for i := 0; i < 2; i++ {
 			r2 := c13Exec(env, c.Seed, sc, explore.Replay(nil, nil))
 			if s := c13Signature(r2); s != rootSig {
-				c.Error("replay divergence in %q: %s vs %s", sc.Name, rootSig, s)
+				c.Unstable("replay divergence in %q: %s vs %s", sc.Name, rootSig, s)
 			}
 		}
 	}
